@@ -18,6 +18,7 @@
    served them (model startup_old, witnesses in coq/theories/ExportImportHistory.v, not used here). *)
 From Coq Require Import ZArith NArith List String.
 From BHS Require Import Work ExportImport ExportImportProofs.
+From BHS Require Store Chain ChainInv ChainMain ChainExport.
 Import ListNotations.
 Open Scope Z_scope.
 
@@ -111,6 +112,17 @@ Theorem C17_nonempty_db_untouched : forall (hashf : src -> N) (bsz : nat) (ckh :
   startup hashf bsz ckh ckhash genesis true t f = (true, t).
 Proof. exact nonempty_untouched. Qed.
 
+
+(* Composition with the chain model (ChainExport.v): for EVERY ingestion history (fields within the ranges of the
+   Go types, hashes given by hashf), the longest chain of the resulting store satisfies chain_ok and fields_ok, so
+   exporting it and importing the file reproduces exactly that chain - stale and orphan headers left out. *)
+Theorem C17_over_histories : forall (hashf : src -> N) f gid gpl hs, gid <> 0%N -> ChainMain.nonzero_ids hs ->
+  ChainExport.payload_in_range gpl -> (forall h, In h hs -> ChainExport.payload_in_range (Store.s_pl h)) ->
+  ChainExport.labelled hashf (Chain.run f gid gpl hs) ->
+  exists tip, ChainInv.Inv (Chain.run f gid gpl hs) tip /\
+    import hashf (export (ChainExport.longest_rows (Chain.run f gid gpl hs) tip)) = Ok (ChainExport.longest_rows (Chain.run f gid gpl hs) tip).
+Proof. exact ChainExport.C17_over_histories. Qed.
+
 Print Assumptions C17_roundtrip.
 Print Assumptions C17_roundtrip_startup.
 Print Assumptions C17_export_selects_longest.
@@ -124,3 +136,4 @@ Print Assumptions C17_refused_import_leaves_nothing.
 Print Assumptions C17_second_start_revalidates.
 Print Assumptions C17_second_start.
 Print Assumptions C17_nonempty_db_untouched.
+Print Assumptions C17_over_histories.
